@@ -199,6 +199,10 @@ class Crate:
                 meta[short] = (h["mangled_name"], h["goto_file"], h["attributes"].get("unwind_value"), h["pretty_name"])
         self.meta = meta
         self.codegen_s = secs
+        with _BASE_LOCK:
+            for k in [k for k in _BASE if k[0] == self.pkg]:
+                del _BASE[k]
+        shutil.rmtree(os.path.join(self.dir, "base"), ignore_errors=True)
         return meta
 
 
@@ -236,28 +240,57 @@ def sk_c_source(skeleton):
             "unsigned int vk_sk(unsigned int i) { return i < %du ? VK_T[i] : 0xFFFFu; }\n" % (n, vals, len(skeleton)))
 
 
+_BASE_LOCK = threading.Lock()
+_BASE = {}
+
+
+def link_base(crate, harness):
+    """Replay Kani's goto-cc / goto-instrument steps (flags copied from `cargo kani --verbose`) once per harness.
+    The skeleton hook vk_sk is kept undefined (excluded from --generate-function-body) so that a per-job C stub
+    can be linked in afterwards with a single goto-cc call."""
+    key = (crate.pkg, harness.name)
+    with _BASE_LOCK:
+        ent = _BASE.get(key)
+        if ent is None:
+            ent = {"lock": threading.Lock(), "out": None, "err": None}
+            _BASE[key] = ent
+    with ent["lock"]:
+        if ent["out"] or ent["err"]:
+            if ent["err"]:
+                raise BuildError(ent["err"])
+            return ent["out"]
+        mangled, symtab = crate.meta[harness.name][:2]
+        d = os.path.join(crate.dir, "base")
+        os.makedirs(d, exist_ok=True)
+        out = os.path.join(d, harness.name + ".out")
+        steps = [
+            ["goto-cc", symtab, kani_lib_c(), "-o", out],
+            ["goto-cc", out, "--function", mangled, "-o", out],
+            ["goto-instrument", "--add-library", "--no-malloc-may-fail", out, out],
+            ["goto-instrument", "--generate-function-body-options", "assert-false-assume-false",
+             "--generate-function-body", "(?!vk_sk$).*", "--drop-unused-functions", out, out],
+            ["goto-instrument", "--ensure-one-backedge-per-target", out, out],
+        ]
+        for st in steps:
+            rc, o, _ = run(st, timeout=900)
+            if rc != 0:
+                ent["err"] = "link step failed: %s\n%s" % (" ".join(st[:3]), _tail(o, 20))
+                raise BuildError(ent["err"])
+        ent["out"] = out
+        return out
+
+
 def link_job(crate, harness, skeleton, jobdir):
-    """Replay Kani's goto-cc / goto-instrument steps (flags copied from `cargo kani --verbose`)."""
-    mangled, symtab = crate.meta[harness.name][:2]
+    base = link_base(crate, harness)
+    if skeleton is None:
+        return base
     out = os.path.join(jobdir, "h.out")
-    srcs = [symtab, kani_lib_c()]
-    if skeleton is not None:
-        c = os.path.join(jobdir, "sk.c")
-        with open(c, "w") as f:
-            f.write(sk_c_source(skeleton))
-        srcs.append(c)
-    steps = [
-        ["goto-cc"] + srcs + ["-o", out],
-        ["goto-cc", out, "--function", mangled, "-o", out],
-        ["goto-instrument", "--add-library", "--no-malloc-may-fail", out, out],
-        ["goto-instrument", "--generate-function-body-options", "assert-false-assume-false",
-         "--generate-function-body", ".*", "--drop-unused-functions", out, out],
-        ["goto-instrument", "--ensure-one-backedge-per-target", out, out],
-    ]
-    for s in steps:
-        rc, o, _ = run(s, timeout=600)
-        if rc != 0:
-            raise BuildError("link step failed: %s\n%s" % (" ".join(s[:3]), _tail(o, 20)))
+    c = os.path.join(jobdir, "sk.c")
+    with open(c, "w") as f:
+        f.write(sk_c_source(skeleton))
+    rc, o, _ = run(["goto-cc", base, c, "--function", crate.meta[harness.name][0], "-o", out], timeout=600)
+    if rc != 0:
+        raise BuildError("skeleton link failed:\n" + _tail(o, 20))
     return out
 
 
@@ -329,19 +362,21 @@ def smt_dump(goto, harness, prop_names, outfile, timeout):
     cmd = ["cbmc"] + CBMC_FLAGS + list(harness.extra_cbmc) + unwind_flags(harness)
     for n in prop_names:
         cmd += ["--property", n]
-    cmd += ["--smt2", "--outfile", outfile, goto]
+    cmd += ["--smt2", "--outfile", outfile, "--verbosity", "8", goto]
     if os.path.exists(outfile):
         os.remove(outfile)
     rc, out, secs = run(cmd, timeout=timeout)
     if rc == -9:
         return "timeout", secs, 0
-    if not os.path.exists(outfile) or os.path.getsize(outfile) == 0:
-        if "VERIFICATION SUCCESSFUL" in out:
+    ran = re.search(r"Generated \d+ VCC\(s\), (\d+) remaining after simplification", out)
+    if not ran or rc != 0:
+        return "error:symex did not complete (rc=%s): %s" % (rc, _tail(out, 6)), secs, 0
+    if not os.path.exists(outfile) or os.path.getsize(outfile) == 0 or "(check-sat)" not in open(outfile).read():
+        # no formula left: only believed when CBMC itself says every VCC was discharged during symex
+        if ran.group(1) == "0":
             return "symex", secs, 0
         return "error:" + _tail(out, 8), secs, 0
     txt = open(outfile).read()
-    if "(check-sat)" not in txt:
-        return "symex", secs, 0
     txt = txt[:txt.index("(check-sat)")] + "(check-sat)\n(exit)\n"
     txt, sites = repair_overflow.repair(txt)
     with open(outfile, "w") as f:
